@@ -532,15 +532,30 @@ fn main() {
         writeln!(w, "    pub const DEFINITION_MAX_ALIGN: usize = {};", d.max_type_align()).unwrap();
         writeln!(w, "    pub const VARIANTS: usize = {};", vs.len()).unwrap();
         // C03b: constant facts
+        // alignment the record types must honour: that of every datum *of a variant* (a datum added and removed
+        // again before its close is never stored)
         writeln!(w, "    pub fn c03_layout<const CAP: usize>() {{").unwrap();
-        writeln!(w, "        chk!(m::MAX_SIZE == DEFINITION_MAX_SIZE, \"C02: published MAX_SIZE differs from the definition's capacity\");").unwrap();
+        // one fact per path (Kani's assert also assumes its condition: independent facts must not hide each other)
+        writeln!(w, "        let sel = nd::u16();").unwrap();
+        let mut k = 0usize;
+        let mut fact = |w: &mut String, cond: String, label: &str| {
+            writeln!(w, "        if sel == {k} {{ chk!({cond}, \"{label}\"); }}").unwrap();
+            k += 1;
+        };
+        fact(&mut w, "m::MAX_SIZE == DEFINITION_MAX_SIZE".into(), "C02: published MAX_SIZE differs from the definition's capacity");
         for vi in 0..vs.len() {
-            writeln!(w, "        chk!(core::mem::size_of::<m::CappedRecord{vi}<CAP>>() == core::mem::size_of::<m::CappedRecord0<CAP>>(), \"C03: record types of one definition differ in size\");").unwrap();
-            writeln!(w, "        chk!(core::mem::align_of::<m::CappedRecord{vi}<CAP>>() == core::mem::align_of::<m::CappedRecord0<CAP>>(), \"C03: record types of one definition differ in alignment\");").unwrap();
-            writeln!(w, "        chk!(core::mem::align_of::<m::CappedRecord{vi}<CAP>>() % DEFINITION_MAX_ALIGN == 0, \"C02: record alignment is not a multiple of every datum alignment\");").unwrap();
+            fact(&mut w, format!("core::mem::size_of::<m::CappedRecord{vi}<CAP>>() == core::mem::size_of::<m::CappedRecord0<CAP>>()"), "C03: record types of one definition differ in size");
+            fact(&mut w, format!("core::mem::align_of::<m::CappedRecord{vi}<CAP>>() == core::mem::align_of::<m::CappedRecord0<CAP>>()"), "C03: record types of one definition differ in alignment");
+            let mut tys: Vec<&str> = vs[vi].fields.iter().map(|f| f.ty.as_str()).collect();
+            tys.sort();
+            tys.dedup();
+            for ty in tys {
+                fact(&mut w, format!("core::mem::align_of::<m::CappedRecord{vi}<CAP>>() % core::mem::align_of::<{ty}>() == 0"), "C02: record alignment is not a multiple of every datum alignment");
+            }
+            fact(&mut w, format!("core::mem::size_of::<m::CappedRecord{vi}<CAP>>() >= CAP"), "C02: record type smaller than its capacity");
         }
-        writeln!(w, "        chk!(core::mem::size_of::<m::RecordUninitialized<CAP>>() == core::mem::size_of::<m::CappedRecord0<CAP>>(), \"C03: RecordUninitialized differs in size from the records\");").unwrap();
-        writeln!(w, "        chk!(core::mem::align_of::<m::RecordUninitialized<CAP>>() == core::mem::align_of::<m::CappedRecord0<CAP>>(), \"C03: RecordUninitialized differs in alignment from the records\");").unwrap();
+        fact(&mut w, "core::mem::size_of::<m::RecordUninitialized<CAP>>() == core::mem::size_of::<m::CappedRecord0<CAP>>()".into(), "C03: RecordUninitialized differs in size from the records");
+        fact(&mut w, "core::mem::align_of::<m::RecordUninitialized<CAP>>() == core::mem::align_of::<m::CappedRecord0<CAP>>()".into(), "C03: RecordUninitialized differs in alignment from the records");
         writeln!(w, "        reach!(\"end of layout harness\");").unwrap();
         writeln!(w, "    }}").unwrap();
         for (vi, v) in vs.iter().enumerate() {
